@@ -78,3 +78,8 @@ claim("C20",
       "All sequences with <= L operations (quick 4, thorough 5..6) from {edits on the source at {0,mid,end}, quoting every range kind over the current elements (array and text) or linking a map entry, overwriting/removing the linked entry, deleting the quotation, causal syncs} are executed and state-matched; after every step on every replica holding the quotation, and on every lattice node of the final pool for a fresh replica, unquote/get_string/try_deref_value must equal the visible elements between the boundary ids in the hook's item sequence; at quoting time the author must see exactly the requested slice; deleting the quotation must not change the source; the quotation's observer must fire when its content changes. Six narrow known findings (block-granular dereference when a boundary is inside a block; five gaps of the link bookkeeping behind observers) are reported as KNOWN-FINDING with structural predicates.",
       "ranges that are empty when quoted are out of scope; expected ranges from the verif hook's item sequence",
       "DESIGN.md 4/C20")
+claim("C09",
+      "complete enumeration of a value grammar up to a size bound (independent lib0-v1 writer) + every payload of bounded real histories + the Yjs corpus embedded in the repository; differential round-trip oracles",
+      "Every Any tree of <= 3 nodes over 40 boundary leaves; every update built by the harness's own lib0-v1 writer over all block kinds x all content kinds x origin/parent combinations x 1..2 clients (structure compared with the description via the hook dump, byte-identical v1 re-encoding, v1->v2->v1, equal effect of the v1 and v2 form on a document); every update / full state / state vector / snapshot of C01-style histories of all families; every Message / SyncMessage / AwarenessUpdate shape incl. Custom tags 4..255 and length classes, v1 and v2; the Yjs-generated byte literals of the repository's compatibility tests. One narrow known finding (YXmlHook content).",
+      "structural equality via the verif hook dump; JSON-carried values (Embed/Format) compared after JSON normalisation; multi-key maps exempt from byte identity (hash order)",
+      "DESIGN.md 4/C09")
